@@ -954,6 +954,11 @@ class Backend:
                 if comp.language in LANGS_CANT_UNITY:
                     sources += srcs
                     continue
+                # assembly and LLVM IR are always compiled on their own
+                # (see NinjaBackend.get_target_source_can_unity)
+                single = [s for s in srcs if compilers.is_assembly(s) or compilers.is_llvm_ir(s)]
+                sources += single
+                srcs = [s for s in srcs if s not in single]
                 for i in range((len(srcs) + unity_size - 1) // unity_size):
                     _src = self.get_unity_source_file(extobj.target,
                                                       comp.get_default_suffix(), i)
